@@ -75,6 +75,8 @@ def cases(tier, seed):
         out.append({"k": "misc", "i0": i0, "i1": min(len(items), i0 + 10), "tier": tier})
     out.append({"k": "lead", "twins": True})
     out.append({"k": "lead", "magnitudes": True})
+    out.append({"k": "lead", "wide": True})
+    out.append({"k": "misc", "wide": True})
     out.append({"k": "misc", "magnitudes": True})
     out.append({"k": "misc", "twins": True})
     return out
@@ -89,7 +91,9 @@ def prekey(el, names, graded, reverse):
 
 
 def run_case(case, R):
-    if case.get("magnitudes"):
+    if case.get("wide"):
+        items = [(tuple(sp["n"]), tuple(sp["s"]), i, sp["d"], sp) for i, (_, sp) in enumerate(space.wide_specs() + space.wide_array_specs())]
+    elif case.get("magnitudes"):
         items = [(tuple(sp["n"]), tuple(sp["s"]), i, sp["d"], sp) for i, sp in enumerate(space.magnitude_specs())]
     elif case.get("twins"):
         items = [(tuple(sp["n"]), tuple(sp["s"]), i, sp["d"], sp) for i, sp in enumerate(space.twin_sequence())]
